@@ -310,7 +310,7 @@ def run(ctx):
     ctx.parallel([(lambda t=t, c=c: ctx.mc(t, c, workers=4 if q else 8)) for t, c in mcs], width=4)
     rng = random.Random(ctx.seed)
     jobs = cq_jobs(ctx, rng) + ag_jobs(ctx, rng) + co_jobs(ctx, rng)
-    recs = pool.run_jobs(__name__, jobs)
+    recs = pool.run_jobs(__name__, jobs, probes=False)     # (its recorder would also see the probes' sacrificial calls)
     verdicts = validate_all(ctx, jobs, recs)
     ctx.judge(jobs, recs, verdicts, what=what)
     seen = set()
